@@ -13,6 +13,7 @@
 //   defects the minimised reproducers of KNOWN_DEFECTS, evaluated strictly (each is reported as a violation)
 //   leak    catalogue x 2 contexts re-executed under LeakSanitizer with a leak check after every case (the driver re-execs
 //           itself with ASAN_OPTIONS=detect_leaks=1; --leak-selftest leaks one block per case to prove the check is live)
+#include <memory>
 #include "c20_ref.hpp"
 #include <unistd.h>
 #include <xercesc/xinclude/XIncludeDOMDocumentProcessor.hpp>
@@ -424,25 +425,23 @@ static void evaluate(const Case& cs, Ctx& c) {
             g_guard->opens = 0; g_guard->tripped = false;
             try {
                 if (api == 0) {
-                    static XercesDOMParser* P = nullptr;
-                    if (!P) { P = new XercesDOMParser(); P->setDoNamespaces(true); P->setDoXInclude(true); }
+                    std::unique_ptr<XercesDOMParser> P(new XercesDOMParser());   // one parser per case (two parses): keeps every case reproducible on its own
+                    P->setDoNamespaces(true); P->setDoXInclude(true);
                     P->setErrorHandler(nullptr);
                     try { P->parse(X16("/v/a.xml").p()); firstEnd = "completed"; } catch (const SAXParseException&) { firstEnd = "stopped by SAXParseException"; } catch (const XMLException&) { firstEnd = "stopped by XMLException"; } catch (const DOMException&) { firstEnd = "stopped by DOMException"; }
                     ErrH h; h.o = &second; P->setErrorHandler(&h);
                     P->parse(X16("/v/good.xml").p());
                     harvest(P->getDocument(), second);
-                    P->setErrorHandler(nullptr);
                 } else {
-                    static DOMLSParser* P = nullptr;
                     static const XMLCh ls[] = {'L', 'S', 0};
-                    if (!P) { P = ((DOMImplementationLS*)DOMImplementationRegistry::getDOMImplementation(ls))->createLSParser(DOMImplementationLS::MODE_SYNCHRONOUS, 0);
-                              P->getDomConfig()->setParameter(XMLUni::fgDOMNamespaces, true); P->getDomConfig()->setParameter(XMLUni::fgXercesDoXInclude, true); }
+                    DOMLSParser* P = ((DOMImplementationLS*)DOMImplementationRegistry::getDOMImplementation(ls))->createLSParser(DOMImplementationLS::MODE_SYNCHRONOUS, 0);
+                    struct RelP { DOMLSParser* p; ~RelP() { p->release(); } } relP{P};
+                    P->getDomConfig()->setParameter(XMLUni::fgDOMNamespaces, true); P->getDomConfig()->setParameter(XMLUni::fgXercesDoXInclude, true);
                     struct StopH : public DOMErrorHandler { bool handleError(const DOMError& e) override { return e.getSeverity() != DOMError::DOM_SEVERITY_FATAL_ERROR; } } stop;
                     P->getDomConfig()->setParameter(XMLUni::fgDOMErrorHandler, &stop);
                     try { P->parseURI(X16("/v/a.xml").p()); firstEnd = "completed"; } catch (const DOMLSException&) { firstEnd = "stopped by DOMLSException"; } catch (const XMLException&) { firstEnd = "stopped by XMLException"; } catch (const DOMException&) { firstEnd = "stopped by DOMException"; }
                     DErrH eh; eh.o = &second; P->getDomConfig()->setParameter(XMLUni::fgDOMErrorHandler, &eh);
                     harvest(P->parseURI(X16("/v/good.xml").p()), second);
-                    P->getDomConfig()->setParameter(XMLUni::fgDOMErrorHandler, (void*)nullptr);
                 }
             }
             catch (const XMLException& e) { second.exc = std::string("XMLException:") + esc16(e.getMessage()); }
